@@ -498,6 +498,10 @@ type model struct {
 	str map[string]string // values of Str-sorted inputs: a literal of the program or a fresh string
 	tv  map[*Term]uint64  // values of auxiliary Bool/BV terms (applications of string functions)
 	ts  map[*Term]string  // values of auxiliary Str terms: a literal, or "\x00fresh:<abstract value>"
+	// home is the solver this model was read from: tv and ts are keyed by that
+	// worker's terms and are meaningless to another worker (a model that
+	// travelled with a work item only carries bv and str).
+	home *solver
 }
 
 func newModel() *model {
